@@ -126,3 +126,95 @@ class ObjectTemplateDecode(Contract):
     ok = pg.to_json_str(t.value) == before
     return dict(outcome='not-reproduced' if ok else 'reproduced',
                 detail='template value unchanged after decoding and mutating the decoded value: ' + str(ok))
+
+
+# ---------------------------------------------------------------------------
+# Binding a placeholder to a value spec: the spec is recorded on the placeholder
+# only after EVERY candidate was applied to it -- a binding that is refused
+# (some candidate is not acceptable) leaves the placeholder unbound, so that a
+# later attempt validates again ("accepted by any value spec the placeholders
+# were bound to").
+
+from pyglove.core.hyper import categorical as _cat   # noqa: E402  pylint: disable=wrong-import-position
+from pyvc import absobj as _absobj2                    # noqa: E402  pylint: disable=wrong-import-position
+
+HC = 'pyglove.core.hyper.categorical'
+
+
+class Candidate:
+  """Marker: an abstract candidate value."""
+
+
+@register
+class OneOfCustomApply(Contract):
+  prop = 'C13'
+  target = f'{HC}:OneOf.custom_apply'
+  raises = {TypeError: ('left_unbound',), ValueError: ('left_unbound',), KeyError: ('left_unbound',)}
+
+  def inputs(self, b):
+    self._cands = _absobj2.ref_seq(b, 'candidates', Candidate)
+    self._spec = SObj(object, {'value_type': None}, name='value_spec')
+    s = SObj(_cat.OneOf, {'_value_spec': None, 'candidates': self._cands, '_allow_partial': b.bool('allow_partial'),
+                          '_sym_attributes': SAny('attrs')}, name='self')
+    return dict(self=s, path=SAny('path'), value_spec=self._spec, allow_partial=b.bool('ap')), {}
+
+  def setup_policy(self, policy):
+    me = self
+    APPLY_OK = z3.Function('c13_candidate_acceptable', z3.IntSort(), z3.BoolSort())
+    self.APPLY_OK = APPLY_OK
+
+    def getattr_h(interp, obj, name, frame):
+      if obj is me._spec and name == 'apply':
+        def apply(ip, a, k):
+          c = ip.resolve(a[0])
+          ip.path.event('apply', 'value_spec.apply', (c,))
+          ip.path.raise_if(z3.Not(APPLY_OK(_absobj2.ref_id(c))), ExcVal(TypeError, ('candidate rejected',)))
+          return c
+        return I.NativeFn(apply)
+      return NotImplemented
+    policy.handlers[('getattr', SObj)] = getattr_h
+
+    def raw_set(interp, args, kwargs, frame):
+      obj, name, v = interp.resolve(args[0]), args[1], args[2]
+      interp.path.event('raw-set', name, (obj, v))
+      obj.fields[name] = v
+      return None
+    policy.handlers[('cmethod', object, '__setattr__')] = raw_set
+
+  def old(self, self_):
+    return dict(spec=self_._value_spec)
+
+  @direct
+  def ensures_bound_only_if_every_candidate_acceptable(self, interp, env):
+    cands = self._cands
+    j = z3.Int('cj')
+    all_ok = z3.ForAll([j], z3.Implies(z3.And(j >= 0, j < cands.len), self.APPLY_OK(z3.Select(cands.arr, j))))
+    bound = interp.resolve(env['self_'].fields['_value_spec']) is self._spec
+    return z3.And(all_ok, z3.BoolVal(bound))
+
+  def raises_left_unbound(self, self_, old):
+    return self_._value_spec is old['spec']
+
+  def replay(self, obligation, m):
+    class _A(pg.Object):
+      x: pg.typing.Int(min_value=0)
+    bad = []
+    for mk in (lambda: pg.oneof([1, -5]), lambda: pg.manyof(2, [1, -5, 3])):
+      h = mk()
+      outcomes = []
+      for _ in range(2):
+        try:
+          if isinstance(h, pg.hyper.ManyOf):
+            pg.Dict(x=h, value_spec=pg.typing.Dict([('x', pg.typing.List(pg.typing.Int(min_value=0)))]))
+          else:
+            _A(x=h)
+          outcomes.append('accepted')
+        except (TypeError, ValueError):
+          outcomes.append('refused')
+      if outcomes != ['refused', 'refused']:
+        bad.append(f'binding {h!r} (a candidate is < 0) to Int(min_value=0) twice: {outcomes}')
+    return dict(outcome='reproduced' if bad else 'not-reproduced', detail='; '.join(bad) or 'a refused binding stays refused')
+
+  def small_models(self):
+    from pyvc.contracts import Model
+    yield Model({}, {})
